@@ -16,7 +16,7 @@ DEFAULT = dict(
     max_depth=[1, 2, 2], ncallers=[1, 1, 2, 3], caller_len=[1, 2, 3], p_caller_await=0.7, p_caller_pause=0.3,
     event_timeout=300.0, short_timeouts=None, p_stall=0.0, shuffle_order=True, rotate_p=0.0,
     own_bus_only=False, long_p=0.0, caller_idle_p=0.0, explicit_parent_p=0.0, redispatch_caller_p=0.0,
-    results_p=0.0,
+    results_p=0.0, p_await_any=0.0, p_stop_fault=0.0, p_late=0.0,
 )
 
 
@@ -51,6 +51,10 @@ def topo(r: random.Random, buses, kind=None):
             for b in buses:
                 if r.random() < 0.35:
                     E.append((a, b))
+    # multigraph: the same forward registered twice on a bus (other forwards may sit between the two)
+    if E and r.random() < 0.3:
+        for _ in range(r.choice([1, 1, 2])):
+            E.insert(r.randrange(len(E) + 1), r.choice(E))
     return E
 
 
@@ -116,6 +120,10 @@ def gen_bus(seed: int, knobs: dict, profile: str) -> dict:
                 p.append(['dispatch', target(own), r.choice(types), evopts(), f'v{nvar}'])
                 p.append(r.choice([['yield', 1], ['yield', 2], ['pause', dur(r)], ['pause', 0.0]]))
                 p.append(['await', f'v{nvar}'])
+            elif hit(K['p_await_any']):
+                # await an event dispatched earlier by this program (not necessarily the latest one)
+                if not sync and nvar:
+                    p.append(['await', f'v{r.randrange(1, nvar + 1)}'])
             elif hit(K['p_redispatch']):
                 if nvar:
                     p.append(['redispatch', target(own), f'v{r.randrange(1, nvar + 1)}'])
@@ -145,7 +153,7 @@ def gen_bus(seed: int, knobs: dict, profile: str) -> dict:
                 edges.append((a, b))
     elif K['fwd'] == 'topo':
         edges = topo(r, buses)
-        sc['topology'] = sorted(set(edges))
+        sc['topology'] = list(edges)
     for b in buses:
         hs = []
         for (a, c) in edges:
@@ -161,6 +169,8 @@ def gen_bus(seed: int, knobs: dict, profile: str) -> dict:
             pat = '*' if r.random() < K['p_wild'] else r.choice(types)
             hs.append({'bus': b, 'pattern': pat, 'by': 'name' if r.random() < K['p_byname'] else 'class', 'kind': kind,
                        'prog': prog(True, kind in ('sync', 'smethod', 'sstatic'), own=b)})
+            if r.random() < K['p_late']:
+                hs[-1]['late'] = True
         r.shuffle(hs)
         sc['handlers'].extend(hs)
     for ci in range(r.choice(K['ncallers'])):
@@ -182,6 +192,19 @@ def gen_bus(seed: int, knobs: dict, profile: str) -> dict:
                 p.append(['await', f'r{nvar}'])
                 p.append(['results', f'r{nvar}', r.choice(['event_result', 'event_results_list', 'event_results_by_handler_id', 'event_results_flat_dict']), r.random() < 0.5])
         sc['callers'].append({'prog': p})
+    late = [hi for hi, h in enumerate(sc['handlers']) if h.get('late')]
+    for hi in late:
+        # registered by a caller somewhere in the middle of its traffic (or by a caller of its own after a pause)
+        if r.random() < 0.7:
+            c = r.choice(sc['callers'])
+            c['prog'].insert(r.randrange(1, len(c['prog']) + 1), ['register', hi])
+        else:
+            sc['callers'].append({'prog': [['pause', dur(r)], ['register', hi]]})
+    if r.random() < K['p_stop_fault']:
+        victim = r.choice(buses)
+        k = r.randrange(5, 320)
+        act = r.choice([['stop', victim, None], ['stop', victim, 0], ['stop', victim, 0.05], ['cancel_runloop', victim]])
+        sc['faults']['at_step'] = [[k, act]]
     if r.random() < K['p_stall']:
         sc['faults']['stalls'] = sorted([[round(r.choice([0.0, 0.01, 0.05, 0.1, 0.5, 1.0]) + r.random() * 0.1, 6), r.choice([0.001, 0.05, 0.11, 0.3])] for _ in range(r.choice([1, 2, 3]))])
     return sc
@@ -203,15 +226,21 @@ PROFILES = {
     'redispatch': dict(nb=[1, 2, 3], p_redispatch=0.15, redispatch_caller_p=0.4),
     'nested': dict(nb=[1, 2, 3], max_depth=[2, 2], p_dawait=0.4, p_dispatch=0.3, p_gap=0.1),
     'gap': dict(nb=[1, 2, 3], p_gap=0.35, p_dawait=0.15),
+    'await_any': dict(nb=[1, 1, 2, 3], p_dispatch=0.4, p_await_any=0.3, p_dawait=0.1, p_pause=0.1, prog_len=[2, 3, 4, 5], max_depth=[2, 2, 3]),
+    'await_any_clean': dict(nb=[1], own_bus_only=True, ncallers=[1], p_caller_await=1.0, shuffle_order=False, p_dispatch=0.4, p_await_any=0.3, p_dawait=0.1,
+                            p_pause=0.1, prog_len=[2, 3, 4, 5], max_depth=[1, 2]),
     'gap_fwd': dict(nb=[2, 3], p_gap=0.3, fwd='some'),
     'backlog': dict(nb=[1, 2, 3], ncallers=[2, 3], caller_len=[2, 3, 4], p_caller_await=0.3, p_dawait=0.4, p_gap=0.1),
     'topo': dict(nb=[1, 2, 3, 4, 5], fwd='topo', prog_len=[0, 0, 1, 2], p_dawait=0.15, p_dispatch=0.15),
-    'topo_traffic': dict(nb=[2, 3, 4], fwd='topo', ncallers=[2, 3], p_dawait=0.3),
+    'topo_traffic': dict(nb=[2, 3, 4], fwd='topo', ncallers=[2, 3], p_dawait=0.3, p_gap=0.1),
+    'topo_redispatch': dict(nb=[2, 3, 4], fwd='topo', ncallers=[1, 2], p_dawait=0.2, p_redispatch=0.15, redispatch_caller_p=0.4),
+    'late_reg': dict(nb=[1, 1, 2], p_late=0.5, p_wild=0.6, ntypes=[1, 2], ncallers=[1, 2], caller_len=[3, 4, 5], p_caller_await=0.7, p_caller_pause=0.2),
+    'multi_stop': dict(nb=[3, 3, 4], p_stop_fault=1.0, ncallers=[2, 3], caller_len=[2, 3, 4], p_caller_await=0.3, p_pause=0.35, p_dispatch=0.3, p_dawait=0.2),
     'errors': dict(nb=[1, 2, 3], p_raise=0.2, p_return_exc=0.1, results_p=0.4, fwd='some'),
     'lineage': dict(nb=[1, 2, 3], parallel_p=0.4, p_readbus=0.2, explicit_parent_p=0.3, fwd='some', p_dispatch=0.35),
     'stalls': dict(nb=[1, 2, 3], p_stall=0.8, p_burn=0.1),
-    'deep': dict(nb=[1, 2], max_depth=[3], p_dawait=0.4, p_wild=0.15),
-    'recursion': dict(nb=[1, 2], max_depth=[3, 4], p_wild=0.7, p_dawait=0.5),
+    'deep': dict(nb=[1, 2], max_depth=[3], p_dawait=0.4, p_wild=0.15, handlers_per_bus=[1, 2], prog_len=[0, 1, 1, 2], ncallers=[1, 1, 2], caller_len=[1, 2]),
+    'recursion': dict(nb=[1, 2], max_depth=[3, 4], p_wild=0.7, p_dawait=0.5, handlers_per_bus=[1, 1, 2], prog_len=[0, 1, 1, 2], ncallers=[1, 1, 2], caller_len=[1, 2]),
     'small_history': dict(nb=[1, 2], max_history=[1, 2, 3, 5, 10], ncallers=[1, 2, 3], caller_len=[2, 3, 4, 5], p_caller_await=0.4),
     'small_history_flat': dict(nb=[1], own_bus_only=True, max_history=[1, 2, 3, 5], ncallers=[1, 2], caller_len=[3, 4, 5, 6], p_caller_await=0.5,
                                p_dawait=0.0, p_dispatch=0.0, p_gap=0.0, max_depth=[1]),
